@@ -83,6 +83,35 @@ def unit_sharing(spec_name, k, opts):
     return res
 
 
+SHARE_OPS = ['and', 'or', 'not', 'implies', 'eq', 'xor', 'nor', 'nand', 'ite', 'var', 'const', 'exists_impl', 'exists/2', 'all/1', 'aln/2', 'amn/1', 'exn/2',
+             'count_leq/1,1', 'count_eq/1,1', 'model', 'retain', 'clean']
+
+
+def sharing_jobs(quick):
+    jobs = []
+    for op in SHARE_OPS:
+        kk = 2 if (quick or op in ('eq', 'xor', 'ite', 'aln/2', 'exn/2', 'count_eq/1,1', 'count_leq/1,1', 'all/1', 'exists/2')) else 3
+        if op.startswith(('aln', 'amn', 'exn', 'count')):
+            kk = 1 if quick else 2
+        if op in ('retain', 'model', 'clean', 'not'):
+            kk = 3          # a rebuilt node *above* a changed sub-diagram needs three levels (seed C14-4)
+        jobs.append(('sharing %s k=%d' % (op, kk), unit_sharing, (op, kk, {})))
+    return jobs
+
+
+def replay_sharing(rep, pid, name, cex):
+    # pointer identity is not observable through the driver's serialisation: report through duplicates()/ptr check
+    case = cex['case']
+    path = save_replay(pid, dict(case, obligation=cex['obligation'], unit=name))
+    line = op_line(case).replace('op ', 'share ', 1)
+    ans = driver_run([line])[0]
+    if ans.startswith('ok') and 'shared=0' in ans:
+        rep.violations.append(('sharing:%s' % case['op'], 'result of `%s` contains a node that is not the table\'s node: %s' % (op_line(case), ans), path))
+        print('CONFIRMED ' + line + ': ' + ans)
+    else:
+        rep.inconclusive.append('%s: sharing counterexample did not reproduce (%s)' % (name, ans[:100]))
+
+
 def unit_eval_twice(shape, k, opts):
     """ParsedFormula::eval executed twice in one environment: the second answer == the documented meaning"""
     import evalcore, fsem
@@ -130,13 +159,8 @@ def main():
         rep.inconclusive.append('replay driver does not build: %s' % str(e)[-300:])
     jobs = []
     # (b)+(c): sharing / invariant units, full recursion, no summaries
-    share_ops = ['and', 'or', 'not', 'implies', 'eq', 'xor', 'nor', 'nand', 'ite', 'var', 'const', 'exists_impl', 'exists/2', 'all/1', 'aln/2', 'amn/1', 'exn/2',
-                 'count_leq/1,1', 'count_eq/1,1', 'model', 'retain', 'clean']
-    for op in share_ops:
-        kk = 2 if (quick or op in ('eq', 'xor', 'ite', 'aln/2', 'exn/2', 'count_eq/1,1', 'count_leq/1,1', 'all/1', 'exists/2')) else 3
-        if op.startswith(('aln', 'amn', 'exn', 'count')):
-            kk = 1 if quick else 2
-        jobs.append(('sharing %s k=%d' % (op, kk), unit_sharing, (op, kk, {})))
+    share_ops = SHARE_OPS
+    jobs += sharing_jobs(quick)
     # (a)(ii): two-operation histories
     rnd = random.Random(SEED)
     pairs = list(itertools.product(PAIR_OPS, PAIR_OPS))
@@ -164,15 +188,7 @@ def main():
             continue
         case = cex['case']
         if cex.get('sharing'):
-            # pointer identity is not observable through the driver's serialisation: report through duplicates()/ptr check
-            path = save_replay(PID, dict(case, obligation=cex['obligation'], unit=name))
-            line = op_line(case).replace('op ', 'share ', 1)
-            ans = driver_run([line])[0]
-            if ans.startswith('ok') and 'shared=0' in ans:
-                rep.violations.append(('sharing:%s' % case['op'], 'result of `%s` contains a node that is not the table\'s node: %s' % (op_line(case), ans), path))
-                print('CONFIRMED ' + line + ': ' + ans)
-            else:
-                rep.inconclusive.append('%s: sharing counterexample did not reproduce (%s)' % (name, ans[:100]))
+            replay_sharing(rep, PID, name, cex)
             continue
         if case.get('kind') == 'pair':
             replay_pair(rep, PID, name, cex)
